@@ -9,6 +9,7 @@
     H-TRIAGE-DET, [law_tangent_sound] is H-TANGENT). *)
 From Coq Require Import ZArith List Bool.
 From Geo Require Import Model.Crosser Proofs.C03_Crosser Proofs.C03_Vertex Proofs.C03_Extra.
+From Geo Require Import Proofs.C02_Float Proofs.Link_C02_C03.
 Import ListNotations.
 Local Open Scope Z_scope.
 
@@ -207,3 +208,54 @@ Theorem interface_laws_satisfiable :
     crossing_spec point peq sign 0 2 1 3 = Cross /\ crossing_spec point peq sign 0 1 2 3 = DoNotCross.
 Proof. exact laws_satisfiable. Qed.
 Print Assumptions interface_laws_satisfiable.
+
+(** ------------------------------------------------------------------------------------------
+    THE INTERFACE INSTANTIATED WITH THE REAL PREDICATES (Proofs/Link_C02_C03.v):
+    [upoint] = s2_Point with finite coordinates and | |p|^2 - 1 | <= 2^-44 (implied by IsUnit),
+    [u_peq] = Go ==, [u_sign] = RobustSign (Model/Pred.v robust_sign), [u_triage] = the translated
+    triageSign, [u_tangent] = the float tangent test of NewEdgeCrosser/crossingSign.
+    The interface laws are discharged from the C02 theorems; what remains as premises:
+    [H_STABLE_DET] (C02: a decisive stableSign is the sign of the determinant) and
+    [H_TANGENT] (the tangent early exit fires only when the exact criterion says "no crossing"). *)
+Theorem crossing_symmetric_real : H_STABLE_DET -> forall a b c d,
+  crossing_spec upoint u_peq u_sign b a c d = crossing_spec upoint u_peq u_sign a b c d /\
+  crossing_spec upoint u_peq u_sign a b d c = crossing_spec upoint u_peq u_sign a b c d /\
+  crossing_spec upoint u_peq u_sign c d a b = crossing_spec upoint u_peq u_sign a b c d.
+Proof. exact crossing_symmetric_real_l. Qed.
+Print Assumptions crossing_symmetric_real.
+
+Theorem maybe_iff_shared_endpoint_real : forall a b c d,
+  crossing_spec upoint u_peq u_sign a b c d = MaybeCross <->
+  (u_peq a c = true \/ u_peq a d = true \/ u_peq b c = true \/ u_peq b d = true).
+Proof. exact maybe_iff_shared_endpoint_real_l. Qed.
+Print Assumptions maybe_iff_shared_endpoint_real.
+
+Theorem crossing_sign_exact_real : H_STABLE_DET -> H_TANGENT -> forall a b c d,
+  crossing_sign upoint u_peq u_sign u_triage u_tangent a b c d =
+  crossing_spec upoint u_peq u_sign a b c d.
+Proof. exact crossing_sign_exact_real_l. Qed.
+Print Assumptions crossing_sign_exact_real.
+
+Theorem crosser_refines_spec_real : H_STABLE_DET -> H_TANGENT ->
+  forall (refdir : upoint -> upoint) a b c0 ops,
+  map (fun x => (st_c upoint (fst x), snd x))
+      (run upoint u_peq u_sign u_triage u_tangent refdir a b (init upoint c0) ops) =
+  spec_run upoint u_peq u_sign refdir a b c0 ops.
+Proof. exact crosser_refines_spec_real_l. Qed.
+Print Assumptions crosser_refines_spec_real.
+
+Theorem crosser_equals_stateless_real : H_STABLE_DET -> H_TANGENT ->
+  forall (refdir : upoint -> upoint) a b c0 ops,
+  map (fun x => (st_c upoint (fst x), snd x))
+      (run upoint u_peq u_sign u_triage u_tangent refdir a b (init upoint c0) ops) =
+  stateless_run upoint u_peq u_sign u_triage u_tangent refdir a b c0 ops.
+Proof. exact crosser_equals_stateless_real_l. Qed.
+Print Assumptions crosser_equals_stateless_real.
+
+Theorem vertex_crossing_exactly_one_real : H_STABLE_DET ->
+  forall (refdir : upoint -> upoint) o x y,
+  u_peq o x = false -> u_peq o y = false -> u_peq x y = false ->
+  vertex_crossing upoint u_peq u_sign refdir o x o y =
+  negb (vertex_crossing upoint u_peq u_sign refdir o y o x).
+Proof. exact vertex_crossing_exactly_one_real_l. Qed.
+Print Assumptions vertex_crossing_exactly_one_real.
